@@ -245,6 +245,19 @@ def clock_hook(state):
             if a0 is not None and a0[0] == 'ts':
                 if seg in ('counter', 'node', 'seconds', 'fractional', 'as_u64'):
                     return ('int', None)
+                if seg in ('send', 'recv'):
+                    # the actor's clock variable no longer holds the clock it was started with but a stamp some call returned (recv
+                    # returns the merged time under the REMOTE node's id; send returns the issued stamp): stamps issued from it carry
+                    # another node's identity / later registrations of that node are refused as duplicates
+                    if not str(a0[1]).startswith('issued'):      # (what send returns IS the clock's new value: assigning it back changes nothing)
+                        world.trace.append(('clock-replaced-by', a0[1]))
+                    if seg == 'send':
+                        state['n'] += 1
+                        world.trace.append(('issue', state['n']))
+                        return ok(('ts', 'issued%d' % state['n']))
+                    m = interp.deref_all(args[1])
+                    world.trace.append(('merge', m[1] if m and m[0] == 'ts' else m))
+                    return ok(('ts', 'merged'))
         return None
     return hook
 
@@ -311,7 +324,7 @@ def check_clock_actor(ctx, facts, rule):
         if res and res[0] == 'panic':
             continue
         trace, left = res
-        got = [e for e in trace if e[0] in ('issue', 'reply', 'merge')]
+        got = [e for e in trace if e[0] in ('issue', 'reply', 'merge', 'clock-replaced-by')]
         if got != want or left:
             bad.append((log, got, left))
     site_ = '%s:%s' % (R.file, R.line)
@@ -339,6 +352,8 @@ def lenient_unknown(interp, name, args, t):
         return ('int', None)
     if ty == '()':
         return UNIT
+    if ty.startswith('&'):
+        return ('ref', Cell(('opaque', 'result-of:' + name)))
     return ('opaque', 'result-of:' + name)
 
 
